@@ -42,6 +42,7 @@ type VerifyOpts struct {
 	SafetyOnly bool
 	MaxPaths   int
 	MaxSteps   int
+	Prune      bool // check the feasibility of both sides of symbolic branches (second attempt after a path explosion)
 }
 
 func (w *World) newExec(fn *ssa.Function, ct *Contract, opts VerifyOpts, cuts map[loopKey]bool) *Exec {
@@ -64,6 +65,7 @@ func (w *World) newExec(fn *ssa.Function, ct *Contract, opts VerifyOpts, cuts ma
 		e.MaxSteps = opts.MaxSteps
 	}
 	e.SafetyOnly = opts.SafetyOnly
+	e.prune = opts.Prune
 	e.RootCt = ct
 	if ct != nil {
 		e.IntMode = ct.Mode == "int"
@@ -135,6 +137,12 @@ func (w *World) VerifyFn(fn *ssa.Function, ct *Contract, opts VerifyOpts) (res *
 		r, restart := w.verifyOnce(fn, ct, opts, cuts)
 		if restart != nil {
 			cuts[*restart] = true
+			continue
+		}
+		if strings.HasPrefix(r.OutOfSubset, "path explosion") && !opts.Prune {
+			// most of the paths of an explosion contradict their own earlier branches; a second attempt asks the
+			// solver at every branch (after the first 128) whether both sides are possible
+			opts.Prune = true
 			continue
 		}
 		return r
